@@ -1,9 +1,13 @@
 (* C15 — theorems about the slice model (Revoke/Model.v), for all event lists.
    The full statements are fixed below as Definitions `*_statement : Prop`.  Proved in this file (Qed, no axioms):
    unknown_index_refused, identity_change_new_handshakes, handshakes_present_current_identity, self_peer_dropped,
-   removed_peer_unroutable, removed_peer_unroutable_at_once, replace_peers_unroutes_all.
-   The remaining statements are evaluated on every co-simulation trace through Revoke/Spec.v (clauses 1-7) and on
-   bounded exhaustive event lists in Props/C15.v; their invariant proofs are not finished (see notes/C15.md). *)
+   removed_peer_unroutable, removed_peer_unroutable_at_once, replace_peers_unroutes_all, removed_peer_indices_refused,
+   removed_peer_sessions_gone, replace_peers_empties_index_table, removed_peer_no_output, identity_change_kills_keypairs,
+   identity_change_stops_old_sessions, identity_change_refuses_pending_responses.
+   Invariants: invA (route owners and own key vs the peer map), invIQ (every index-table entry is held by a slot of its
+   owner's record; a peer that is not running holds no index), invE (keypairs usable for sending have the current epoch).
+   Not proved: identity_change_drops_pending_handshakes_statement (the table-level form: no handshake ENTRY survives an
+   identity change); its behavioural form identity_change_refuses_pending_responses is proved. *)
 From WG Require Import Base.Prelude Gen.Constants Revoke.Model Revoke.Spec.
 Local Open Scope N_scope.
 
@@ -363,4 +367,718 @@ Proof.
   set (s := final step (init id) evs) in *.
   destruct (remove_all_invA (map p_pk (d_peers s)) s (invA_reached id evs)) as (_ & N & Sub).
   apply (N pk); [apply Sub; exact Hp|exact Hp].
+Qed.
+
+(* ------------------------------------------------------------ the index table and its owners *)
+
+Definition kpi (k : option kp) : list N := match k with Some x => [k_idx x] | None => [] end.
+Definition hsi (h : option N) : list N := match h with Some i => [i] | None => [] end.
+Definition idxs (p : peer) : list N := kpi (p_prev p) ++ kpi (p_cur p) ++ kpi (p_next p) ++ hsi (p_hs p).
+
+Definition invI (ps : list peer) (t : list (N * ient)) : Prop :=
+  forall i e, In (i, e) t -> exists p, find_peer (e_peer e) ps = Some p /\ In i (idxs p).
+Definition invQ (ps : list peer) : Prop := forall p, In p ps -> p_run p = false -> idxs p = [].
+
+Lemma in_it_del i t x : In x (it_del i t) <-> In x t /\ fst x <> i.
+Proof.
+  unfold it_del. rewrite filter_In. split; intros (A & B); split; auto.
+  - intros E. rewrite E, N.eqb_refl in B. discriminate.
+  - apply Bool.negb_true_iff. apply N.eqb_neq. exact B.
+Qed.
+Lemma in_it_set i e t x : In x (it_set i e t) <-> x = (i, e) \/ (In x t /\ fst x <> i).
+Proof. unfold it_set. cbn [In]. rewrite in_it_del. split; intros [A|A]; auto. Qed.
+Lemma in_it_del_kp k t x : In x (it_del_kp k t) <-> In x t /\ ~ In (fst x) (kpi k).
+Proof.
+  destruct k as [k|]; cbn [it_del_kp kpi In]; [|tauto].
+  rewrite in_it_del. split; intros (A & B); (split; [exact A|]).
+  - intros [E|[]]; apply B; auto.
+  - intros E; apply B; left; auto.
+Qed.
+Lemma in_it_del_hs h t x : In x (it_del_hs h t) <-> In x t /\ ~ In (fst x) (hsi h).
+Proof.
+  destruct h as [h|]; cbn [it_del_hs hsi In]; [|tauto].
+  rewrite in_it_del. split; intros (A & B); (split; [exact A|]).
+  - intros [E|[]]; apply B; auto.
+  - intros E; apply B; left; auto.
+Qed.
+
+Lemma find_put_peer x q l :
+  find_peer x (put_peer q l) = if x =? p_pk q then (if has_peer x l then Some q else None) else find_peer x l.
+Proof.
+  unfold put_peer, has_peer. induction l as [|p l IH]; cbn [map find_peer].
+  - destruct (x =? p_pk q); reflexivity.
+  - destruct (p_pk p =? p_pk q) eqn:E.
+    + apply N.eqb_eq in E. destruct (x =? p_pk q) eqn:F.
+      * apply N.eqb_eq in F. subst x. rewrite N.eqb_refl. rewrite E, N.eqb_refl. reflexivity.
+      * rewrite E. rewrite N.eqb_sym, F. rewrite IH. reflexivity.
+    + destruct (p_pk p =? x) eqn:G.
+      * apply N.eqb_eq in G. subst x. rewrite E. reflexivity.
+      * exact IH.
+Qed.
+
+Lemma find_map_same (f : peer -> peer) x l :
+  (forall p, p_pk (f p) = p_pk p) -> find_peer x (map f l) = option_map f (find_peer x l).
+Proof.
+  intros H. induction l as [|p l IH]; cbn [map find_peer option_map]; [reflexivity|].
+  rewrite H. destruct (p_pk p =? x); [reflexivity|exact IH].
+Qed.
+
+Lemma find_del_peer x pk l : x <> pk -> find_peer x (del_peer pk l) = find_peer x l.
+Proof.
+  intros Hn. unfold del_peer. induction l as [|p l IH]; cbn [filter find_peer]; [reflexivity|].
+  destruct (p_pk p =? pk) eqn:E; cbn [negb].
+  - apply N.eqb_eq in E. destruct (p_pk p =? x) eqn:F; [apply N.eqb_eq in F; congruence|exact IH].
+  - cbn [find_peer]. destruct (p_pk p =? x); [reflexivity|exact IH].
+Qed.
+
+Lemma in_put_peer q l x : In x (put_peer q l) -> x = q \/ In x l.
+Proof.
+  unfold put_peer. intros H. apply in_map_iff in H. destruct H as (p & E & Hp).
+  destruct (p_pk p =? p_pk q); subst; auto.
+Qed.
+
+(* replacing one peer record: every entry that stays must still be held by its owner *)
+Lemma invI_put ps t pk p q t' :
+  invI ps t -> find_peer pk ps = Some p -> p_pk q = pk ->
+  (forall i e, In (i, e) t' ->
+     (In (i, e) t /\ (In i (idxs p) -> In i (idxs q))) \/ (e_peer e = pk /\ In i (idxs q))) ->
+  invI (put_peer q ps) t'.
+Proof.
+  intros HI F Hq Ht i e Hin. rewrite find_put_peer, Hq.
+  destruct (Ht i e Hin) as [(A & B)|(A & B)].
+  - destruct (HI i e A) as (p0 & F0 & I0).
+    destruct (e_peer e =? pk) eqn:E.
+    + apply N.eqb_eq in E. rewrite E in *. rewrite (find_has _ _ _ F). exists q. split; [reflexivity|].
+      rewrite F in F0. injection F0; intros <-. auto.
+    + exists p0. auto.
+  - rewrite A, N.eqb_refl, (find_has _ _ _ F). exists q. auto.
+Qed.
+
+Lemma invQ_put ps q : invQ ps -> (p_run q = false -> idxs q = []) -> invQ (put_peer q ps).
+Proof. intros H Hq x Hx. destruct (in_put_peer _ _ _ Hx) as [->|Hi]; auto. Qed.
+
+(* SendStagedPackets on the table *)
+Lemma send_staged_tab up id oidx p t p' t' o :
+  send_staged up id oidx p t = (p', t', o) ->
+  (p' = p /\ t' = t) \/ (p_staged p' = 0 /\ p_hs p' = p_hs p /\ t' = t) \/
+  (p_hs p' = Some oidx /\ t' = it_set oidx {| e_peer := p_pk p; e_hs := true |} (it_del_hs (p_hs p) t)).
+Proof.
+  unfold send_staged. destruct ((p_staged p =? 0) || negb up); [intros H; injection H; intros; subst; auto|].
+  destruct (p_cur p) as [k|].
+  - destruct (negb (k_dead k)).
+    + intros H; injection H; intros; subst. right; left. cbn [set_staged p_staged p_hs]. auto.
+    + destruct (p_recent p); intros H; injection H; intros; subst; auto; right; right; cbn [p_hs]; auto.
+  - destruct (p_recent p); intros H; injection H; intros; subst; auto; right; right; cbn [p_hs]; auto.
+Qed.
+
+Lemma idxs_eq p q : p_prev q = p_prev p -> p_cur q = p_cur p -> p_next q = p_next p -> p_hs q = p_hs p -> idxs q = idxs p.
+Proof. unfold idxs. intros -> -> -> ->. reflexivity. Qed.
+
+(* after SendStagedPackets the owner still holds every entry it had (minus the replaced pending index) *)
+Lemma send_staged_inv up id oidx ps t pk p0 p t1 p' t' o :
+  send_staged up id oidx p t1 = (p', t', o) ->
+  find_peer pk ps = Some p0 -> p_pk p = pk ->
+  (forall i e, In (i, e) t1 ->
+     (In (i, e) t /\ (In i (idxs p0) -> In i (idxs p))) \/ (e_peer e = pk /\ In i (idxs p))) ->
+  (forall i e, In (i, e) t' ->
+     (In (i, e) t /\ (In i (idxs p0) -> In i (idxs p'))) \/ (e_peer e = pk /\ In i (idxs p'))).
+Proof.
+  intros H F Hpk Ht. pose proof (send_staged_spec _ _ _ _ _ _ _ _ H) as (S1 & S2 & S3 & S4 & S5 & _).
+  destruct (send_staged_tab _ _ _ _ _ _ _ _ H) as [(-> & ->)|[(_ & Hh & ->)|(Hh & ->)]]; [exact Ht| |].
+  - rewrite (idxs_eq p p') by assumption. exact Ht.
+  - intros i e Hin. apply in_it_set in Hin. destruct Hin as [E|(Hin & Hne)].
+    + injection E; intros Ee Ei. subst i e. right. cbn [e_peer]. split; [exact Hpk|].
+      unfold idxs. rewrite Hh. cbn [hsi]. rewrite !in_app_iff. cbn [In]. auto.
+    + apply in_it_del_hs in Hin. destruct Hin as (Hin & Hnh). cbn [fst] in *.
+      assert (Keep : In i (idxs p) -> In i (idxs p')).
+      { unfold idxs. rewrite S3, S4, S5, Hh. rewrite !in_app_iff. cbn [hsi In]. tauto. }
+      destruct (Ht i e Hin) as [(A & B)|(A & B)]; [left|right]; split; auto.
+Qed.
+
+Definition invIQ (s : state) : Prop := invI (d_peers s) (d_itab s) /\ invQ (d_peers s).
+
+Ltac slots :=
+  unfold idxs in *; cbn [kpi hsi p_prev p_cur p_next p_hs k_idx app In fst e_peer] in *;
+  intuition (subst; try congruence; auto).
+
+Lemma stage1_idxs p : idxs (stage1 p) = idxs p.
+Proof. reflexivity. Qed.
+
+Lemma invIQ_tun s pfx oidx : invIQ s -> invIQ (fst (step s (ETun pfx oidx))).
+Proof.
+  intros (HI & HQ). cbn [step].
+  destruct (route pfx (d_routes s)) as [pk|]; [|split; assumption].
+  destruct (find_peer pk (d_peers s)) as [p|] eqn:F; [|split; assumption].
+  destruct (p_run p) eqn:R; cbn [negb]; [|split; assumption].
+  destruct (send_staged (d_up s) (d_ident s) oidx (stage1 p) (d_itab s)) as [[p1 t1] o] eqn:S.
+  cbn [fst with_peers_tab d_peers d_itab].
+  pose proof (send_staged_spec _ _ _ _ _ _ _ _ S) as (S1 & S2 & _).
+  split.
+  - eapply invI_put; [exact HI|exact F|rewrite S1; cbn [stage1 set_staged p_pk]; eapply find_peer_pk; exact F|].
+    apply (send_staged_inv _ _ _ (d_peers s) (d_itab s) pk p _ _ _ _ _ S F); [cbn [stage1 set_staged p_pk]; eapply find_peer_pk; exact F|].
+    intros i e Hin. left. split; [exact Hin|]. rewrite stage1_idxs. auto.
+  - apply invQ_put; [exact HQ|]. rewrite S2. cbn [stage1 set_staged p_run]. rewrite R. discriminate.
+Qed.
+
+Lemma invIQ_transport s idx src ka oidx : invIQ s -> invIQ (fst (step s (ETransport idx src ka oidx))).
+Proof.
+  intros (HI & HQ). cbn [step].
+  destruct (negb (d_up s)); [split; assumption|].
+  destruct (it_get idx (d_itab s)) as [e|]; [|split; assumption].
+  destruct (e_hs e); [split; assumption|].
+  destruct (find_peer (e_peer e) (d_peers s)) as [p|] eqn:F; [|split; assumption].
+  destruct (p_run p) eqn:R; cbn [negb]; [|split; assumption].
+  pose proof (find_peer_pk _ _ _ F) as Hpk.
+  destruct (same_idx (p_next p) idx) eqn:Sm.
+  - match goal with |- context [send_staged ?u ?i ?o ?pp ?tt] => destruct (send_staged u i o pp tt) as [[p2 t2] o2] eqn:S end.
+    cbn [fst with_peers_tab d_peers d_itab].
+    pose proof (send_staged_spec _ _ _ _ _ _ _ _ S) as (S1 & S2 & _). cbn [p_pk p_run] in S1, S2.
+    split.
+    + eapply invI_put; [exact HI|exact F|rewrite S1; exact Hpk|].
+      apply (send_staged_inv _ _ _ (d_peers s) (d_itab s) (e_peer e) p _ _ _ _ _ S F); [exact Hpk|].
+      intros i e' Hin. apply in_it_del_kp in Hin. destruct Hin as (Hin & Hn). left. split; [exact Hin|].
+      cbn [fst] in Hn. revert Hn. unfold idxs; cbn [p_prev p_cur p_next p_hs].
+      destruct (p_prev p), (p_cur p), (p_next p), (p_hs p); slots.
+    + apply invQ_put; [exact HQ|]. rewrite S2. discriminate.
+  - cbn [fst with_peers_tab d_peers d_itab]. split.
+    + eapply invI_put; [exact HI|exact F|exact Hpk|]. intros i e' Hin. left. split; [exact Hin|]. auto.
+    + apply invQ_put; [exact HQ|]. cbn [p_run]. discriminate.
+Qed.
+
+Lemma invIQ_response s idx from ident ridx : invIQ s -> invIQ (fst (step s (EResponse idx from ident ridx))).
+Proof.
+  intros (HI & HQ). cbn [step].
+  destruct (negb (d_up s)); [split; assumption|].
+  destruct (negb (ident =? d_ident s)); [split; assumption|].
+  destruct (it_get idx (d_itab s)) as [e|]; [|split; assumption].
+  destruct (negb (e_hs e)); [split; assumption|].
+  destruct (negb (e_peer e =? from)); [split; assumption|].
+  destruct (find_peer (e_peer e) (d_peers s)) as [p|] eqn:F; [|split; assumption].
+  pose proof (find_peer_pk _ _ _ F) as Hpk.
+  destruct (p_hs p) as [h|] eqn:Hh; [|split; assumption].
+  destruct (negb (h =? idx)) eqn:Hx; [split; assumption|].
+  apply Bool.negb_false_iff, N.eqb_eq in Hx. subst h.
+  assert (Rn : p_run p = true).
+  { destruct (p_run p) eqn:R; [reflexivity|]. pose proof (HQ p (find_peer_In _ _ _ F) R) as E.
+    unfold idxs in E. rewrite Hh in E. destruct (kpi (p_prev p)), (kpi (p_cur p)), (kpi (p_next p)); discriminate. }
+  destruct (p_next p) as [n|] eqn:Hn.
+  - match goal with |- context [send_staged ?u ?i ?o ?pp ?tt] => destruct (send_staged u i o pp tt) as [[p2 t2] o2] eqn:S end.
+    cbn [fst with_peers_tab d_peers d_itab].
+    pose proof (send_staged_spec _ _ _ _ _ _ _ _ S) as (S1 & S2 & _). cbn [p_pk p_run] in S1, S2.
+    split.
+    + eapply invI_put; [exact HI|exact F|rewrite S1; exact Hpk|].
+      apply (send_staged_inv _ _ _ (d_peers s) (d_itab s) (e_peer e) p _ _ _ _ _ S F); [exact Hpk|].
+      intros i e' Hin. apply in_it_del_kp in Hin. destruct Hin as (Hin & N1).
+      apply in_it_del_kp in Hin. destruct Hin as (Hin & N2).
+      apply in_it_set in Hin. cbn [fst] in *. revert N1 N2. unfold idxs; cbn [p_prev p_cur p_next p_hs]. rewrite Hh, Hn.
+      destruct Hin as [E|(Hin & N3)].
+      * injection E; intros E1 E2; subst i e'. intros _ _. right. split; [exact Hpk|]. slots.
+      * intros N1 N2. left. split; [exact Hin|]. cbn [fst] in N3. destruct (p_prev p), (p_cur p); slots.
+    + apply invQ_put; [exact HQ|]. rewrite S2, Rn. discriminate.
+  - match goal with |- context [send_staged ?u ?i ?o ?pp ?tt] => destruct (send_staged u i o pp tt) as [[p2 t2] o2] eqn:S end.
+    cbn [fst with_peers_tab d_peers d_itab].
+    pose proof (send_staged_spec _ _ _ _ _ _ _ _ S) as (S1 & S2 & _). cbn [p_pk p_run] in S1, S2.
+    split.
+    + eapply invI_put; [exact HI|exact F|rewrite S1; exact Hpk|].
+      apply (send_staged_inv _ _ _ (d_peers s) (d_itab s) (e_peer e) p _ _ _ _ _ S F); [exact Hpk|].
+      intros i e' Hin. apply in_it_del_kp in Hin. destruct Hin as (Hin & N1).
+      apply in_it_set in Hin. cbn [fst] in *. revert N1. unfold idxs; cbn [p_prev p_cur p_next p_hs]. rewrite Hh, Hn.
+      destruct Hin as [E|(Hin & N3)].
+      * injection E; intros E1 E2; subst i e'. intros _. right. split; [exact Hpk|]. destruct (p_cur p); slots.
+      * intros N1. left. split; [exact Hin|]. cbn [fst] in N3. destruct (p_prev p), (p_cur p); slots.
+    + apply invQ_put; [exact HQ|]. rewrite S2, Rn. discriminate.
+Qed.
+
+Lemma invIQ_initiation s from ident oidx ridx : invIQ s -> invIQ (fst (step s (EInitiation from ident oidx ridx))).
+Proof.
+  intros (HI & HQ). cbn [step].
+  destruct (negb (d_up s)); [split; assumption|].
+  destruct (negb (ident =? d_ident s)); [split; assumption|].
+  destruct (find_peer from (d_peers s)) as [p|] eqn:F; [|split; assumption].
+  pose proof (find_peer_pk _ _ _ F) as Hpk.
+  destruct (p_run p) eqn:R; cbn [negb]; [|split; assumption].
+  destruct (p_flood p); [split; assumption|].
+  cbn [fst with_peers_tab d_peers d_itab]. split.
+  - eapply invI_put; [exact HI|exact F|exact Hpk|].
+    intros i e' Hin. apply in_it_del_kp in Hin. destruct Hin as (Hin & N1).
+    apply in_it_del_kp in Hin. destruct Hin as (Hin & N2).
+    apply in_it_set in Hin. cbn [fst] in *. revert N1 N2. unfold idxs; cbn [p_prev p_cur p_next p_hs].
+    destruct Hin as [E|(Hin & N3)].
+    + injection E; intros E1 E2; subst i e'. intros _ _. right. split; [exact Hpk|]. destruct (p_cur p); slots.
+    + apply in_it_del_hs in Hin. destruct Hin as (Hin & N4). cbn [fst] in *. intros N1 N2. left. split; [exact Hin|].
+      revert N4. destruct (p_prev p), (p_cur p), (p_next p), (p_hs p); slots.
+  - apply invQ_put; [exact HQ|]. cbn [p_run]. discriminate.
+Qed.
+
+Lemma invI_map (f : peer -> peer) ps t :
+  (forall p, p_pk (f p) = p_pk p) -> (forall p i, In i (idxs p) -> In i (idxs (f p))) ->
+  invI ps t -> invI (map f ps) t.
+Proof.
+  intros Hk Hi HI i e Hin. destruct (HI i e Hin) as (p & F & I0).
+  exists (f p). rewrite find_map_same by exact Hk. rewrite F. split; [reflexivity|auto].
+Qed.
+
+Lemma invQ_map (f : peer -> peer) ps :
+  (forall p, p_run (f p) = false -> p_run p = false /\ idxs (f p) = idxs p) -> invQ ps -> invQ (map f ps).
+Proof.
+  intros Hf HQ x Hx R. apply in_map_iff in Hx. destruct Hx as (p & <- & Hp).
+  destruct (Hf p R) as (Rp & E). rewrite E. apply HQ; assumption.
+Qed.
+
+Lemma invI_sub ps t t' : (forall x, In x t' -> In x t) -> invI ps t -> invI ps t'.
+Proof. intros Hs HI i e Hin. apply HI. apply Hs. exact Hin. Qed.
+
+Lemma start_idxs p : idxs (start p) = idxs p.
+Proof. unfold start. destruct (p_run p); reflexivity. Qed.
+
+Lemma invIQ_up s : invIQ s -> invIQ (fst (step s EUp)).
+Proof.
+  intros (HI & HQ). cbn [step]. destruct (d_up s); [split; assumption|]. cbn [fst d_peers d_itab]. split.
+  - apply invI_map; [apply start_pk| |exact HI]. intros p i. rewrite start_idxs. auto.
+  - apply invQ_map; [|exact HQ]. intros p R. unfold start in *. destruct (p_run p) eqn:E; [congruence|]. cbn [p_run] in R. discriminate.
+Qed.
+
+Lemma invIQ_age s pk : invIQ s -> invIQ (fst (step s (EAge pk))).
+Proof.
+  intros (HI & HQ). cbn [step fst with_peers_tab d_peers d_itab]. split.
+  - apply invI_map; [| |exact HI]; intros p; destruct (p_pk p =? pk); auto.
+  - apply invQ_map; [|exact HQ]. intros p R. destruct (p_pk p =? pk); cbn [p_run] in R; auto.
+Qed.
+
+(* Stop *)
+Lemma in_zero_tab p t x : In x (zero_tab p t) <-> In x t /\ ~ In (fst x) (idxs p).
+Proof.
+  unfold zero_tab, idxs. rewrite in_it_del_hs, !in_it_del_kp, !in_app_iff. tauto.
+Qed.
+
+Lemma stop_tab_sub p t x : In x (snd (stop p t)) -> In x t /\ (p_run p = true -> ~ In (fst x) (idxs p)).
+Proof.
+  unfold stop. destruct (p_run p); cbn [snd].
+  - rewrite in_zero_tab. tauto.
+  - intros H. split; [exact H|discriminate].
+Qed.
+
+Lemma remove_peer_invIQ pk s : invIQ s -> invIQ (remove_peer pk s).
+Proof.
+  intros (HI & HQ). unfold remove_peer. destruct (find_peer pk (d_peers s)) as [p|] eqn:F; [|split; assumption].
+  unfold invIQ; cbn [d_peers d_itab]. split.
+  - intros i e Hin. apply stop_tab_sub in Hin. destruct Hin as (Hin & Hz). cbn [fst] in Hz.
+    destruct (HI i e Hin) as (p0 & F0 & I0).
+    assert (Hne : e_peer e <> pk).
+    { intros E. rewrite E, F in F0. injection F0; intros <-.
+      destruct (p_run p) eqn:R; [apply Hz; auto|]. rewrite (HQ p (find_peer_In _ _ _ F) R) in I0. destruct I0. }
+    exists p0. rewrite find_del_peer by exact Hne. auto.
+  - intros x Hx. apply HQ. unfold del_peer in Hx. apply filter_In in Hx. apply Hx.
+Qed.
+
+Lemma remove_all_invIQ pks : forall s, invIQ s -> invIQ (remove_all pks s).
+Proof. induction pks as [|pk r IH]; intros s H; cbn [remove_all]; [exact H|]. apply IH. apply remove_peer_invIQ. exact H. Qed.
+
+Lemma in_expire_tab ps : forall t x, In x (expire_tab ps t) -> In x t /\ (forall p, In p ps -> ~ In (fst x) (hsi (p_hs p))).
+Proof.
+  unfold expire_tab. induction ps as [|q r IH]; intros t x; cbn [fold_left].
+  - intros H. split; [exact H|intros p []].
+  - intros H. apply IH in H. destruct H as (H & Hr). apply in_it_del_hs in H. destruct H as (H & Hq).
+    split; [exact H|]. intros p [<-|Hp]; auto.
+Qed.
+
+Lemma invIQ_setkey s k : invIQ s -> invIQ (fst (step s (ESetKey k))).
+Proof.
+  intros H. cbn [step]. destruct (k =? d_ident s); [exact H|]. cbn [fst].
+  destruct (remove_peer_invIQ k s H) as (HI & HQ). unfold invIQ; cbn [d_peers d_itab]. split.
+  - intros i e Hin. apply in_expire_tab in Hin. destruct Hin as (Hin & Hh). cbn [fst] in Hh.
+    destruct (HI i e Hin) as (p & F & I0). exists (expire_peer p).
+    rewrite find_map_same by reflexivity. rewrite F. split; [reflexivity|].
+    specialize (Hh p (find_peer_In _ _ _ F)). revert I0 Hh. unfold idxs; cbn [expire_peer p_prev p_cur p_next p_hs].
+    destruct (p_prev p), (p_cur p), (p_next p), (p_hs p); cbn [kill]; slots.
+  - intros x Hx R. apply in_map_iff in Hx. destruct Hx as (p & <- & Hp). cbn [expire_peer p_run] in R.
+    pose proof (HQ p Hp R) as E. revert E. unfold idxs; cbn [expire_peer p_prev p_cur p_next p_hs].
+    destruct (p_prev p), (p_cur p), (p_next p), (p_hs p); cbn [kill kpi hsi app]; try discriminate. reflexivity.
+Qed.
+
+Lemma in_stop_fold ps : forall t x,
+  In x (fold_left (fun t p => snd (stop p t)) ps t) -> In x t /\ (forall p, In p ps -> p_run p = true -> ~ In (fst x) (idxs p)).
+Proof.
+  induction ps as [|q r IH]; intros t x; cbn [fold_left].
+  - intros H. split; [exact H|intros p []].
+  - intros H. apply IH in H. destruct H as (H & Hr). apply stop_tab_sub in H. destruct H as (H & Hq).
+    split; [exact H|]. intros p [<-|Hp]; auto.
+Qed.
+
+Lemma invIQ_down s : invIQ s -> invIQ (fst (step s EDown)).
+Proof.
+  intros (HI & HQ). cbn [step]. destruct (negb (d_up s)); [split; assumption|]. cbn [fst d_peers d_itab]. split.
+  - intros i e Hin. exfalso. apply in_stop_fold in Hin. destruct Hin as (Hin & Hz). cbn [fst] in Hz.
+    destruct (HI i e Hin) as (p & F & I0). pose proof (find_peer_In _ _ _ F) as Hp.
+    destruct (p_run p) eqn:R; [exact (Hz p Hp R I0)|]. rewrite (HQ p Hp R) in I0. destruct I0.
+  - intros x Hx R. apply in_map_iff in Hx. destruct Hx as (p & <- & Hp).
+    unfold stop in *. destruct (p_run p) eqn:E; cbn [fst] in *; [reflexivity|]. apply HQ; assumption.
+Qed.
+
+Lemma start_run p : p_run (start p) = true.
+Proof. unfold start. destruct (p_run p) eqn:E; [exact E|reflexivity]. Qed.
+
+Lemma find_app_l x l q p : find_peer x l = Some p -> find_peer x (l ++ [q]) = Some p.
+Proof.
+  induction l as [|a l IH]; cbn [find_peer app]; [discriminate|]. destruct (p_pk a =? x); auto.
+Qed.
+
+Lemma invIQ_add s pk ep pfx oidx : invIQ s -> invIQ (fst (step s (EAddPeer pk ep pfx oidx))).
+Proof.
+  intros (HI & HQ). cbn [step]. destruct (pk =? d_ident s); [split; assumption|].
+  match goal with |- context [if has_peer pk ?l then ?a else ?b] => set (ps := if has_peer pk l then a else b) end.
+  assert (Hps : invI ps (d_itab s) /\ invQ ps).
+  { unfold ps. destruct (has_peer pk (d_peers s)).
+    - destruct ep; [|split; assumption]. split.
+      + apply invI_map; [| |exact HI]; intros p; destruct (p_pk p =? pk); auto.
+      + apply invQ_map; [|exact HQ]. intros p R. destruct (p_pk p =? pk); cbn [p_run] in R; auto.
+    - split.
+      + intros i e Hin. destruct (HI i e Hin) as (p & F & I0). exists p. split; [apply find_app_l; exact F|exact I0].
+      + intros x Hx R. apply in_app_or in Hx. destruct Hx as [Hx|[<-|[]]]; [apply HQ; assumption|reflexivity]. }
+  destruct Hps as (HI1 & HQ1).
+  destruct (negb (d_up s)); [cbn [fst]; split; assumption|].
+  match goal with |- context [find_peer pk ?l] => set (ps1 := l) end.
+  assert (HI2 : invI ps1 (d_itab s)).
+  { unfold ps1. apply invI_map; [| |exact HI1]; intros p; destruct (p_pk p =? pk); auto; [apply start_pk|]. intros i. rewrite start_idxs. auto. }
+  assert (HQ2 : invQ ps1).
+  { unfold ps1. apply invQ_map; [|exact HQ1]. intros p R. destruct (p_pk p =? pk); auto. rewrite start_run in R. discriminate. }
+  destruct (find_peer pk ps1) as [p|] eqn:F; [|cbn [fst]; split; assumption].
+  assert (Rp : p_run p = true).
+  { unfold ps1 in F. rewrite find_map_same in F by (intros q; destruct (p_pk q =? pk); [apply start_pk|reflexivity]).
+    destruct (find_peer pk ps) as [p'|] eqn:F'; [|discriminate]. cbn [option_map] in F. injection F; intros <-.
+    rewrite (find_peer_pk _ _ _ F'), N.eqb_refl. apply start_run. }
+  destruct (send_staged (d_up s) (d_ident s) oidx p (d_itab s)) as [[p1 t1] o] eqn:S. cbn [fst d_peers d_itab].
+  pose proof (send_staged_spec _ _ _ _ _ _ _ _ S) as (S1 & S2 & _).
+  pose proof (find_peer_pk _ _ _ F) as Hpk.
+  split.
+  - eapply invI_put; [exact HI2|exact F|rewrite S1; exact Hpk|].
+    apply (send_staged_inv _ _ _ ps1 (d_itab s) pk p _ _ _ _ _ S F); [exact Hpk|].
+    intros i e Hin. left. auto.
+  - apply invQ_put; [exact HQ2|]. rewrite S2, Rp. discriminate.
+Qed.
+
+Lemma invIQ_step s e : invIQ s -> invIQ (fst (step s e)).
+Proof.
+  intros H. destruct e.
+  - apply invIQ_add; exact H.
+  - cbn [step fst]. apply remove_peer_invIQ; exact H.
+  - cbn [step fst]. apply remove_all_invIQ; exact H.
+  - apply invIQ_setkey; exact H.
+  - apply invIQ_up; exact H.
+  - apply invIQ_down; exact H.
+  - apply invIQ_age; exact H.
+  - apply invIQ_tun; exact H.
+  - apply invIQ_transport; exact H.
+  - apply invIQ_response; exact H.
+  - apply invIQ_initiation; exact H.
+Qed.
+
+Lemma invIQ_reached id evs : invIQ (reached id evs).
+Proof.
+  unfold reached. apply (final_inv step invIQ); [intros; apply invIQ_step; assumption|].
+  unfold invIQ, init; cbn [d_peers d_itab]. split; [intros i e []|intros p []].
+Qed.
+
+Theorem removed_peer_indices_refused : removed_peer_indices_refused_statement.
+Proof.
+  unfold removed_peer_indices_refused_statement. intros id evs i e Hin.
+  destruct (invIQ_reached id evs) as (HI & _). destruct (HI i e Hin) as (p & F & _). eapply find_has. exact F.
+Qed.
+
+Theorem removed_peer_sessions_gone : removed_peer_sessions_gone_statement.
+Proof.
+  unfold removed_peer_sessions_gone_statement. intros id evs pk i e Hin E.
+  pose proof (removed_peer_indices_refused id (evs ++ [ERemove pk]) i e Hin) as Hp. rewrite E in Hp.
+  unfold reached in Hp. rewrite final_app in Hp. unfold final at 1 in Hp. cbn [run step fst] in Hp.
+  destruct (remove_peer_invA pk (final step (init id) evs) (invA_reached id evs)) as (_ & N & _).
+  apply N. apply has_peer_in. exact Hp.
+Qed.
+
+Theorem replace_peers_empties_index_table : replace_peers_empties_index_table_statement.
+Proof.
+  unfold replace_peers_empties_index_table_statement. intros id evs.
+  assert (Hp : d_peers (reached id (evs ++ [EReplacePeers])) = []).
+  { unfold reached. rewrite final_app. unfold final at 1. cbn [run step fst].
+    set (s := final step (init id) evs).
+    destruct (remove_all_invA (map p_pk (d_peers s)) s (invA_reached id evs)) as (_ & N & Sub).
+    destruct (d_peers (remove_all (map p_pk (d_peers s)) s)) as [|p l] eqn:E; [reflexivity|exfalso].
+    assert (Hin : In (p_pk p) (keys (remove_all (map p_pk (d_peers s)) s))) by (unfold keys; rewrite E; left; reflexivity).
+    apply (N (p_pk p)); [apply Sub; exact Hin|exact Hin]. }
+  split; [|exact Hp].
+  destruct (invIQ_reached id (evs ++ [EReplacePeers])) as (HI & _). rewrite Hp in HI.
+  destruct (d_itab (reached id (evs ++ [EReplacePeers]))) as [|[i e] t]; [reflexivity|exfalso].
+  destruct (HI i e (or_introl eq_refl)) as (p & F & _). discriminate.
+Qed.
+
+(* ------------------------------------------------------------ outputs only toward peers in the peer map *)
+
+Lemma send_staged_out_peer up id oidx p t p' t' o x :
+  send_staged up id oidx p t = (p', t', o) -> In x o -> out_peer x = p_pk p.
+Proof.
+  intros H Hx. destruct (send_staged_spec _ _ _ _ _ _ _ _ H) as (_ & _ & _ & _ & _ & Ho).
+  destruct (Ho x Hx) as [->|(k & _ & _ & ->)]; reflexivity.
+Qed.
+
+Lemma send_staged_nothing up id oidx p t : p_staged p = 0 -> snd (send_staged up id oidx p t) = [].
+Proof. intros H. unfold send_staged. rewrite H. reflexivity. Qed.
+
+Lemma find_app_r x l q : has_peer x l = false -> p_pk q = x -> find_peer x (l ++ [q]) = Some q.
+Proof.
+  unfold has_peer. intros H Hq. induction l as [|a l IH]; cbn [find_peer app] in *.
+  - rewrite Hq, N.eqb_refl. reflexivity.
+  - destruct (p_pk a =? x); [discriminate|auto].
+Qed.
+
+Lemma step_out_present s e o : In o (snd (step s e)) ->
+  has_peer (out_peer o) (d_peers s) = true /\ has_peer (out_peer o) (d_peers (fst (step s e))) = true.
+Proof.
+  destruct e; cbn [step].
+  - (* EAddPeer *)
+    destruct (pk =? d_ident s); [intros []|].
+    match goal with |- context [if has_peer pk ?l then ?a else ?b] => set (ps := if has_peer pk l then a else b) end.
+    destruct (negb (d_up s)); [intros []|].
+    match goal with |- context [find_peer pk ?l] => set (ps1 := l) end.
+    destruct (find_peer pk ps1) as [p|] eqn:F; [|intros []].
+    destruct (send_staged (d_up s) (d_ident s) oidx p (d_itab s)) as [[p1 t1] o1] eqn:S. cbn [fst snd d_peers].
+    intros Hin. rewrite (send_staged_out_peer _ _ _ _ _ _ _ _ _ S Hin), (find_peer_pk _ _ _ F).
+    split; [|rewrite has_put_peer; eapply find_has; exact F].
+    destruct (has_peer pk (d_peers s)) eqn:Hp; [reflexivity|exfalso].
+    assert (Hz : p_staged p = 0).
+    { unfold ps1, ps in F. rewrite find_map_same in F by (intros q; destruct (p_pk q =? pk); [apply start_pk|reflexivity]).
+      rewrite (find_app_r pk (d_peers s) (new_peer pk ep) Hp eq_refl) in F. cbn [option_map new_peer p_pk] in F.
+      rewrite N.eqb_refl in F. injection F; intros <-. reflexivity. }
+    pose proof (send_staged_nothing (d_up s) (d_ident s) oidx p (d_itab s) Hz) as E. rewrite S in E. cbn [snd] in E.
+    rewrite E in Hin. destruct Hin.
+  - intros [].
+  - intros [].
+  - destruct (k =? d_ident s); intros [].
+  - destruct (d_up s); intros [].
+  - destruct (negb (d_up s)); intros [].
+  - intros [].
+  - (* ETun *)
+    destruct (route pfx (d_routes s)) as [pk|]; [|intros []].
+    destruct (find_peer pk (d_peers s)) as [p|] eqn:F; [|intros []].
+    destruct (negb (p_run p)); [intros []|].
+    destruct (send_staged (d_up s) (d_ident s) oidx (stage1 p) (d_itab s)) as [[p1 t1] o1] eqn:S.
+    cbn [fst snd with_peers_tab d_peers]. intros Hin.
+    rewrite (send_staged_out_peer _ _ _ _ _ _ _ _ _ S Hin). cbn [stage1 set_staged p_pk].
+    rewrite (find_peer_pk _ _ _ F), has_put_peer, (find_has _ _ _ F). auto.
+  - (* ETransport *)
+    destruct (negb (d_up s)); [intros []|].
+    destruct (it_get idx (d_itab s)) as [e|]; [|intros []].
+    destruct (e_hs e); [intros []|].
+    destruct (find_peer (e_peer e) (d_peers s)) as [p|] eqn:F; [|intros []].
+    destruct (negb (p_run p)); [intros []|].
+    pose proof (find_peer_pk _ _ _ F) as Hpk.
+    assert (Hw : forall x, In x (if keepalive then [] else
+                  match route src (d_routes s) with
+                  | Some owner => if owner =? p_pk p then [OTunWrite (p_pk p)] else []
+                  | None => [] end) -> out_peer x = p_pk p).
+    { intros x. destruct keepalive; [intros []|]. destruct (route src (d_routes s)); [|intros []].
+      destruct (k =? p_pk p); [intros [<-|[]]; reflexivity|intros []]. }
+    destruct (same_idx (p_next p) idx).
+    + match goal with |- context [send_staged ?u ?i ?oo ?pp ?tt] => destruct (send_staged u i oo pp tt) as [[p2 t2] o2] eqn:S end.
+      cbn [fst snd with_peers_tab d_peers]. intros Hin. apply in_app_or in Hin.
+      assert (E : out_peer o = p_pk p).
+      { destruct Hin as [Hin|Hin]; [rewrite (send_staged_out_peer _ _ _ _ _ _ _ _ _ S Hin); reflexivity|apply Hw; exact Hin]. }
+      rewrite E, Hpk, has_put_peer, (find_has _ _ _ F). auto.
+    + cbn [fst snd with_peers_tab d_peers app]. intros Hin. rewrite (Hw _ Hin), Hpk, has_put_peer, (find_has _ _ _ F). auto.
+  - (* EResponse *)
+    destruct (negb (d_up s)); [intros []|].
+    destruct (negb (ident =? d_ident s)); [intros []|].
+    destruct (it_get idx (d_itab s)) as [e|]; [|intros []].
+    destruct (negb (e_hs e)); [intros []|].
+    destruct (negb (e_peer e =? from)); [intros []|].
+    destruct (find_peer (e_peer e) (d_peers s)) as [p|] eqn:F; [|intros []].
+    pose proof (find_peer_pk _ _ _ F) as Hpk.
+    destruct (p_hs p) as [h|]; [|intros []].
+    destruct (negb (h =? idx)); [intros []|].
+    destruct (p_next p);
+      match goal with |- context [send_staged ?u ?i ?oo ?pp ?tt] => destruct (send_staged u i oo pp tt) as [[p2 t2] o2] eqn:S end;
+      cbn [fst snd with_peers_tab d_peers]; intros Hin;
+      rewrite (send_staged_out_peer _ _ _ _ _ _ _ _ _ S Hin); cbn [p_pk];
+      rewrite Hpk, has_put_peer, (find_has _ _ _ F); auto.
+  - (* EInitiation *)
+    destruct (negb (d_up s)); [intros []|].
+    destruct (negb (ident =? d_ident s)); [intros []|].
+    destruct (find_peer from (d_peers s)) as [p|] eqn:F; [|intros []].
+    destruct (negb (p_run p)); [intros []|]. destruct (p_flood p); [intros []|].
+    cbn [fst snd with_peers_tab d_peers]. intros [<-|[]]. cbn [out_peer].
+    rewrite (find_peer_pk _ _ _ F), has_put_peer, (find_has _ _ _ F). auto.
+Qed.
+
+Theorem removed_peer_no_output : removed_peer_no_output_statement.
+Proof. unfold removed_peer_no_output_statement. intros id evs e o H. apply step_out_present. exact H. Qed.
+
+Theorem identity_change_kills_keypairs : identity_change_kills_keypairs_statement.
+Proof.
+  unfold identity_change_kills_keypairs_statement. intros id evs k p Hk Hp.
+  unfold reached in Hp. rewrite final_app in Hp. unfold final at 1 in Hp. cbn [run step] in Hp.
+  fold (reached id evs) in Hp. apply N.eqb_neq in Hk. rewrite Hk in Hp. cbn [fst d_peers] in Hp.
+  apply in_map_iff in Hp. destruct Hp as (q & <- & _). cbn [expire_peer p_cur p_next p_hs].
+  destruct (p_cur q), (p_next q); cbn [kill usable k_dead negb]; auto.
+Qed.
+
+(* ------------------------------------------------------------ keypairs usable for sending have the current epoch *)
+
+Definition okk (ep : N) (k : option kp) : Prop := forall x, k = Some x -> k_dead x = false -> k_epoch x = ep.
+Definition okp (ep : N) (p : peer) : Prop := okk ep (p_cur p) /\ okk ep (p_next p).
+Definition allp (ep : N) (ps : list peer) : Prop := forall p, In p ps -> okp ep p.
+Definition invE (s : state) : Prop := allp (d_epoch s) (d_peers s).
+
+Lemma okk_none ep : okk ep None.
+Proof. intros x H. discriminate. Qed.
+
+Lemma allp_put ep q ps : allp ep ps -> okp ep q -> allp ep (put_peer q ps).
+Proof. intros H Hq x Hx. destruct (in_put_peer _ _ _ Hx) as [->|Hi]; auto. Qed.
+
+Lemma allp_map ep (f : peer -> peer) ps : (forall p, okp ep p -> okp ep (f p)) -> allp ep ps -> allp ep (map f ps).
+Proof. intros Hf H x Hx. apply in_map_iff in Hx. destruct Hx as (p & <- & Hp). auto. Qed.
+
+Lemma okp_same ep p q : p_cur q = p_cur p -> p_next q = p_next p -> okp ep p -> okp ep q.
+Proof. unfold okp. intros -> ->. auto. Qed.
+
+Lemma start_okp ep p : okp ep p -> okp ep (start p).
+Proof. unfold start. destruct (p_run p); auto. Qed.
+
+Lemma send_transport_epoch up id oidx p t p' t' o ep to r e :
+  send_staged up id oidx p t = (p', t', o) -> okk ep (p_cur p) -> In (OTransport to r e) o -> e = ep.
+Proof.
+  intros H Hk Hin. destruct (send_staged_spec _ _ _ _ _ _ _ _ H) as (_ & _ & _ & _ & _ & Ho).
+  destruct (Ho _ Hin) as [E|(k & C & D & E)]; [discriminate|]. injection E; intros; subst. apply Hk; assumption.
+Qed.
+
+Lemma remove_peer_sub pk s p : In p (d_peers (remove_peer pk s)) -> In p (d_peers s).
+Proof.
+  unfold remove_peer. destruct (find_peer pk (d_peers s)); [|auto]. cbn [d_peers]. unfold del_peer. intros H. apply filter_In in H. apply H.
+Qed.
+Lemma remove_peer_epoch pk s : d_epoch (remove_peer pk s) = d_epoch s.
+Proof. unfold remove_peer. destruct (find_peer pk (d_peers s)); reflexivity. Qed.
+Lemma remove_all_sub pks : forall s p, In p (d_peers (remove_all pks s)) -> In p (d_peers s).
+Proof. induction pks as [|pk r IH]; intros s p; cbn [remove_all]; [auto|]. intros H. apply IH in H. eapply remove_peer_sub; exact H. Qed.
+Lemma remove_all_epoch pks : forall s, d_epoch (remove_all pks s) = d_epoch s.
+Proof. induction pks as [|pk r IH]; intros s; cbn [remove_all]; [reflexivity|]. rewrite IH. apply remove_peer_epoch. Qed.
+
+Lemma invE_step_out s e : invE s ->
+  invE (fst (step s e)) /\ (forall to r ep, In (OTransport to r ep) (snd (step s e)) -> ep = d_epoch s).
+Proof.
+  intros H. unfold invE in *. destruct e; cbn [step].
+  - (* EAddPeer *)
+    destruct (pk =? d_ident s); [split; [exact H|intros ? ? ? []]|].
+    match goal with |- context [if has_peer pk ?l then ?a else ?b] => set (ps := if has_peer pk l then a else b) end.
+    assert (Hps : allp (d_epoch s) ps).
+    { unfold ps. destruct (has_peer pk (d_peers s)).
+      - destruct ep; [|exact H]. apply allp_map; [|exact H]. intros p Hp. destruct (p_pk p =? pk); [|exact Hp]. exact Hp.
+      - intros x Hx. apply in_app_or in Hx. destruct Hx as [Hx|[<-|[]]]; [auto|]. split; apply okk_none. }
+    destruct (negb (d_up s)); [cbn [fst snd d_epoch d_peers]; split; [exact Hps|intros ? ? ? []]|].
+    match goal with |- context [find_peer pk ?l] => set (ps1 := l) end.
+    assert (Hps1 : allp (d_epoch s) ps1).
+    { unfold ps1. apply allp_map; [|exact Hps]. intros p Hp. destruct (p_pk p =? pk); [apply start_okp|]; exact Hp. }
+    destruct (find_peer pk ps1) as [p|] eqn:F; [|cbn [fst snd d_epoch d_peers]; split; [exact Hps1|intros ? ? ? []]].
+    destruct (send_staged (d_up s) (d_ident s) oidx p (d_itab s)) as [[p1 t1] o] eqn:S. cbn [fst snd d_epoch d_peers].
+    pose proof (Hps1 p (find_peer_In _ _ _ F)) as Hp.
+    destruct (send_staged_spec _ _ _ _ _ _ _ _ S) as (_ & _ & _ & S4 & S5 & _).
+    split; [apply allp_put; [exact Hps1|eapply okp_same; eassumption]|].
+    intros to r e Hin. eapply send_transport_epoch; [exact S|apply Hp|exact Hin].
+  - (* ERemove *) cbn [fst snd]. split; [|intros ? ? ? []]. rewrite remove_peer_epoch. intros p Hp. apply H. eapply remove_peer_sub; exact Hp.
+  - (* EReplacePeers *) cbn [fst snd]. split; [|intros ? ? ? []]. rewrite remove_all_epoch. intros p Hp. apply H. eapply remove_all_sub; exact Hp.
+  - (* ESetKey *)
+    destruct (k =? d_ident s); [split; [exact H|intros ? ? ? []]|]. cbn [fst snd d_epoch d_peers]. split; [|intros ? ? ? []].
+    intros x Hx. apply in_map_iff in Hx. destruct Hx as (p & <- & _). unfold okp, expire_peer; cbn [p_cur p_next].
+    split; destruct (p_cur p), (p_next p); cbn [kill]; intros y Hy Hd; try discriminate; injection Hy; intros <-; cbn [k_dead] in Hd; discriminate.
+  - (* EUp *) destruct (d_up s); [split; [exact H|intros ? ? ? []]|]. cbn [fst snd d_epoch d_peers]. split; [|intros ? ? ? []].
+    apply allp_map; [|exact H]. intros p. apply start_okp.
+  - (* EDown *) destruct (negb (d_up s)); [split; [exact H|intros ? ? ? []]|]. cbn [fst snd d_epoch d_peers]. split; [|intros ? ? ? []].
+    apply allp_map; [|exact H]. intros p Hp. unfold stop. destruct (p_run p); cbn [fst]; [split; apply okk_none|exact Hp].
+  - (* EAge *) cbn [fst snd with_peers_tab d_epoch d_peers]. split; [|intros ? ? ? []].
+    apply allp_map; [|exact H]. intros p Hp. destruct (p_pk p =? pk); exact Hp.
+  - (* ETun *)
+    destruct (route pfx (d_routes s)) as [pk|]; [|split; [exact H|intros ? ? ? []]].
+    destruct (find_peer pk (d_peers s)) as [p|] eqn:F; [|split; [exact H|intros ? ? ? []]].
+    destruct (negb (p_run p)); [split; [exact H|intros ? ? ? []]|].
+    destruct (send_staged (d_up s) (d_ident s) oidx (stage1 p) (d_itab s)) as [[p1 t1] o] eqn:S.
+    cbn [fst snd with_peers_tab d_epoch d_peers].
+    pose proof (H p (find_peer_In _ _ _ F)) as Hp.
+    destruct (send_staged_spec _ _ _ _ _ _ _ _ S) as (_ & _ & _ & S4 & S5 & _).
+    split; [apply allp_put; [exact H|eapply (okp_same _ p); [rewrite S4|rewrite S5|]; auto]|].
+    intros to r e Hin. eapply send_transport_epoch; [exact S|apply Hp|exact Hin].
+  - (* ETransport *)
+    destruct (negb (d_up s)); [split; [exact H|intros ? ? ? []]|].
+    destruct (it_get idx (d_itab s)) as [e|]; [|split; [exact H|intros ? ? ? []]].
+    destruct (e_hs e); [split; [exact H|intros ? ? ? []]|].
+    destruct (find_peer (e_peer e) (d_peers s)) as [p|] eqn:F; [|split; [exact H|intros ? ? ? []]].
+    destruct (negb (p_run p)); [split; [exact H|intros ? ? ? []]|].
+    pose proof (H p (find_peer_In _ _ _ F)) as (Hc & Hn).
+    assert (Hw : forall to r ep (x : Prop), In (OTransport to r ep) (if keepalive then [] else
+                  match route src (d_routes s) with
+                  | Some owner => if owner =? p_pk p then [OTunWrite (p_pk p)] else []
+                  | None => [] end) -> x).
+    { intros to r ep x. destruct keepalive; [intros []|]. destruct (route src (d_routes s)); [|intros []].
+      destruct (k =? p_pk p); [intros [E|[]]; discriminate|intros []]. }
+    destruct (same_idx (p_next p) idx).
+    + match goal with |- context [send_staged ?u ?i ?oo ?pp ?tt] => destruct (send_staged u i oo pp tt) as [[p2 t2] o2] eqn:S end.
+      cbn [fst snd with_peers_tab d_epoch d_peers].
+      destruct (send_staged_spec _ _ _ _ _ _ _ _ S) as (_ & _ & _ & S4 & S5 & _). cbn [p_cur p_next] in S4, S5.
+      split.
+      * apply allp_put; [exact H|]. split; [rewrite S4; exact Hn|rewrite S5; apply okk_none].
+      * intros to r ep Hin. apply in_app_or in Hin. destruct Hin as [Hin|Hin]; [|eapply Hw; exact Hin].
+        eapply send_transport_epoch; [exact S|cbn [p_cur]; exact Hn|exact Hin].
+    + cbn [fst snd with_peers_tab d_epoch d_peers app]. split.
+      * apply allp_put; [exact H|]. split; assumption.
+      * intros to r ep Hin. eapply Hw; exact Hin.
+  - (* EResponse *)
+    destruct (negb (d_up s)); [split; [exact H|intros ? ? ? []]|].
+    destruct (negb (ident =? d_ident s)); [split; [exact H|intros ? ? ? []]|].
+    destruct (it_get idx (d_itab s)) as [e|]; [|split; [exact H|intros ? ? ? []]].
+    destruct (negb (e_hs e)); [split; [exact H|intros ? ? ? []]|].
+    destruct (negb (e_peer e =? from)); [split; [exact H|intros ? ? ? []]|].
+    destruct (find_peer (e_peer e) (d_peers s)) as [p|] eqn:F; [|split; [exact H|intros ? ? ? []]].
+    destruct (p_hs p) as [h|]; [|split; [exact H|intros ? ? ? []]].
+    destruct (negb (h =? idx)); [split; [exact H|intros ? ? ? []]|].
+    assert (Hk : okk (d_epoch s) (Some {| k_idx := idx; k_ridx := ridx; k_epoch := d_epoch s; k_dead := false |})).
+    { intros x Hx _. injection Hx; intros <-. reflexivity. }
+    destruct (p_next p);
+      match goal with |- context [send_staged ?u ?i ?oo ?pp ?tt] => destruct (send_staged u i oo pp tt) as [[p2 t2] o2] eqn:S end;
+      cbn [fst snd with_peers_tab d_epoch d_peers];
+      destruct (send_staged_spec _ _ _ _ _ _ _ _ S) as (_ & _ & _ & S4 & S5 & _); cbn [p_cur p_next] in S4, S5;
+      (split; [apply allp_put; [exact H|]; split; [rewrite S4; exact Hk|rewrite S5; apply okk_none]|
+               intros to r ep Hin; eapply send_transport_epoch; [exact S|cbn [p_cur]; exact Hk|exact Hin]]).
+  - (* EInitiation *)
+    destruct (negb (d_up s)); [split; [exact H|intros ? ? ? []]|].
+    destruct (negb (ident =? d_ident s)); [split; [exact H|intros ? ? ? []]|].
+    destruct (find_peer from (d_peers s)) as [p|] eqn:F; [|split; [exact H|intros ? ? ? []]].
+    destruct (negb (p_run p)); [split; [exact H|intros ? ? ? []]|]. destruct (p_flood p); [split; [exact H|intros ? ? ? []]|].
+    cbn [fst snd with_peers_tab d_epoch d_peers]. pose proof (H p (find_peer_In _ _ _ F)) as (Hc & Hn). split.
+    + apply allp_put; [exact H|]. split; cbn [p_cur p_next]; [exact Hc|]. intros x Hx _. injection Hx; intros <-. reflexivity.
+    + intros to r ep [E|[]]. discriminate.
+Qed.
+
+Lemma invE_reached id evs : invE (reached id evs).
+Proof.
+  unfold reached. apply (final_inv step invE); [intros s o Hs; apply invE_step_out; exact Hs|].
+  intros p [].
+Qed.
+
+Theorem identity_change_stops_old_sessions : identity_change_stops_old_sessions_statement.
+Proof.
+  unfold identity_change_stops_old_sessions_statement. intros id evs e to ridx ep Hin.
+  eapply (proj2 (invE_step_out _ e (invE_reached id evs))). exact Hin.
+Qed.
+
+(* behavioural form of "pending handshakes are dropped by an identity change": whatever initiation the device had sent
+   before, a response arriving after the change has no effect at all *)
+Theorem identity_change_refuses_pending_responses : forall id evs k idx from d ridx,
+  k <> d_ident (reached id evs) ->
+  let s := reached id (evs ++ [ESetKey k]) in
+  step s (EResponse idx from d ridx) = (s, []).
+Proof.
+  intros id evs k idx from d ridx Hk s. cbn [step].
+  destruct (negb (d_up s)); [reflexivity|].
+  destruct (negb (d =? d_ident s)); [reflexivity|].
+  destruct (it_get idx (d_itab s)) as [e|]; [|reflexivity].
+  destruct (negb (e_hs e)); [reflexivity|].
+  destruct (negb (e_peer e =? from)); [reflexivity|].
+  destruct (find_peer (e_peer e) (d_peers s)) as [p|] eqn:F; [|reflexivity].
+  destruct (identity_change_kills_keypairs id evs k p Hk (find_peer_In _ _ _ F)) as (_ & _ & Hh).
+  rewrite Hh. reflexivity.
 Qed.
